@@ -38,6 +38,19 @@ Fit(k, ign) ==
               /\ UNCHANGED stored
               /\ last' = Rec("fit", k, "-", ign, "model")
 
+(* fit() on a model object that already holds a fit (freshly fitted or loaded from storage): it becomes the model of the new data;
+   a refused refit leaves the gate as it was *)
+Refit(k, ign) ==
+    /\ fitted
+    /\ IF HasDQ(k) /\ ~ign
+         THEN /\ UNCHANGED <<fitted, kind, mdq, stored>>
+              /\ last' = Rec("refit", k, "-", ign, "DataSufficiencyError")
+         ELSE /\ kind' = k
+              /\ mdq' = (IF HasDQ(k) THEN {"base"} ELSE {}) \cup (IF Poor(k) THEN {"poorfit"} ELSE {})
+              /\ stored' = FALSE
+              /\ UNCHANGED fitted
+              /\ last' = Rec("refit", k, "-", ign, "model")
+
 (* predict(): when several causes hold at once the statement only demands that it raises *)
 Predict(d, tz, ign) ==
     /\ UNCHANGED <<fitted, kind, mdq, stored>>
@@ -54,6 +67,7 @@ Store ==
     /\ last' = Rec("store", "-", "-", FALSE, "model")
 
 Next == \/ \E k \in Kinds, ign \in BOOLEAN : Fit(k, ign)
+        \/ \E k \in Kinds, ign \in BOOLEAN : Refit(k, ign)
         \/ \E d \in DTypes, tz \in TZs, ign \in BOOLEAN : Predict(d, tz, ign)
         \/ Store
 
@@ -62,7 +76,7 @@ Spec == Init /\ [][Next]_vars
 (* fail-closed: a prediction frame is never produced by a disqualified model without the override *)
 FailClosed == (last.act = "predict" /\ last.out = "frame") => (mdq = {} \/ last.ign)
 (* fit raises exactly when the data is disqualified and the override is absent *)
-FitGate == (last.act = "fit") => ((last.out = "DataSufficiencyError") <=> (HasDQ(last.p1) /\ ~last.ign))
+FitGate == (last.act \in {"fit", "refit"}) => ((last.out = "DataSufficiencyError") <=> (HasDQ(last.p1) /\ ~last.ign))
 (* the disqualifications of a fitted model are determined by the data it was fitted on, stored or not *)
 StorePreserves == fitted => (mdq = (IF HasDQ(kind) THEN {"base"} ELSE {}) \cup (IF Poor(kind) THEN {"poorfit"} ELSE {}))
 (* an unfitted model never predicts *)
